@@ -5,7 +5,7 @@ Tie K (every run, generated inputs):
   * func_adl `argument_stack` (the translator's frame stack)  vs  `Stack.lookup`
   * func_adl `extract_metadata`                               vs  `strip`
   * func_adl `simplify_chained_calls`                         vs  `simp`
-  * qastle printer / parser                                   vs  `wprint` / `wparse`
+  * qastle printer / parser                                   vs  `wprint` / `wparse`  (n-ary and/or, chained comparisons: `wprint2`)
   * `process_metadata` under permutation                      vs  `procMd`
   * `generate_script_block`                                   vs  `emitScripts`
 Spec on the implementation (reference free): the REAL pipeline (`apply_ast_transformations` + `write_cpp_files`) is
@@ -18,7 +18,7 @@ import json
 from typing import Any, Dict, List, Optional, Tuple
 
 ID = "C08"
-LEAN_MODULES = ["FaxVerif.C08.Theorems", "FaxVerif.C08.MdTheorems", "FaxVerif.C08.ExtTheorems"]
+LEAN_MODULES = ["FaxVerif.C08.Theorems", "FaxVerif.C08.MdTheorems", "FaxVerif.C08.ExtTheorems", "FaxVerif.C08.WireNTheorems"]
 LEAN_SOURCES = ["FaxVerif/C08"]
 DRIVER = "FaxVerif/C08/Driver.lean"
 THEOREMS = [
@@ -61,6 +61,13 @@ THEOREMS = [
     "FaxVerif.C08.scripts_chain_any_order",
     "FaxVerif.C08.scripts_independent_in_list_order",
     "FaxVerif.C08.scripts_order_counterexample",
+    "FaxVerif.C08.md_bundle_position",
+    "FaxVerif.C08.md_bundle_same_order",
+    # (a) continued: n-ary and/or, chained comparisons
+    "FaxVerif.C08.wire_roundtrip_nary",
+    "FaxVerif.C08.wire_roundtrip_nary_open",
+    "FaxVerif.C08.wirePre_id",
+    "FaxVerif.C08.nary_reassociated_counterexample",
     # (d) continued: the place func_adl's simplifier leaves to the translator
     "FaxVerif.C08.selectmany_second_lambda_unvisited",
     "FaxVerif.C08.chain_left_to_translator",
@@ -99,7 +106,9 @@ RULE = (
     "sub-streams in lambda bodies; a pair is compared when the extraction order is kept or Lean's `mdSameB` (model of process_metadata + "
     "generate_script_block) cannot tell the two orders apart; `alpha-echo` — the same predicate / value text (plug-in method, plug-in "
     "function, typed method, subscript, math call, enum constant, if-else) in nested scopes (5 nestings), the inner parameter spelled like "
-    "the outer one / like the event parameter / differently; `fuse-left` — six Select.Select / Where.Where chains in the lambda of the "
+    "the outer one / like the event parameter / differently; `alpha-cross` — five shapes of four or five nested lambdas whose OUTER "
+    "parameters are used again behind the inner lambdas, in every pattern of name re-use that is an alpha-variant (so both outer names "
+    "re-bound at different inner levels: e/j/e/j); `fuse-left` — six Select.Select / Where.Where chains in the lambda of the "
     "second of two chained SelectMany calls (top level, followed by a Select, nested) and in an ordinary lambda (control), fused as "
     "composition and by substitution. The random generator also repeats earlier predicates in inner lambdas, builds predicates from the "
     "plug-ins, uses an enum-typed method (column, cut) and writes SelectMany over objects at top level. A comparison is non-trivial when the variant differs from the base and both translations succeed; distinct = distinct "
@@ -136,7 +145,11 @@ LEVEL_TEXT = (
     "itself a Select/Where (counterexample proved otherwise); the lambda of the second of two chained SelectMany calls is returned by the "
     "simplifier exactly as written (so chains inside it are composed by the translator: compared by the harness through the completed "
     "normal form); (a) qastle's text format at token level parses back what it prints up to "
-    "tuple->list, and a translator that does not tell tuple from list is unaffected. Each model is run against the real function on every "
+    "tuple->list, and a translator that does not tell tuple from list is unaffected; for n-ary and/or and chained comparisons the printer is "
+    "`wprint` after the rewriting `wirePre` (fold to the left / one comparison per operator joined by `and`), the round trip gives exactly "
+    "`wireNorm (wirePre q)`, and `wirePre` is the identity on queries the format carries as written; any number of MetaData calls attached "
+    "at any valid positions in two ways give the same extracted query and, when the extraction orders agree registry by registry, the same "
+    "processed state (`md_bundle_position`). Each model is run against the real function on every "
     "generated input of every run, and the Spec (same package up to first-occurrence renumbering of generated names) is evaluated on the "
     "real pipeline's output for every generated query and variant on the three backends."
 )
@@ -972,6 +985,81 @@ def scripts_stream(ctx, n: int):
                 )
 
 
+def wire_nary_stream(ctx, n: int):
+    """qastle's printer and parser on expressions with n-ary and/or and chained comparisons against Lean `wprint2`
+    (= wprint after `wirePre`), `wparse` and `wireNorm2`: the tokens, and the query that comes back."""
+    T, gen, Vr, P = _lib()
+    from c08_lib.terms import C, L, N, V, call, meth
+
+    rng = ctx.rng
+
+    def leaf():
+        c = rng.random()
+        if c < 0.35:
+            return meth(V(rng.choice(["j", "e"])), rng.choice(["d", "i", "pt"]))
+        if c < 0.6:
+            return C(rng.choice([0, 1, 30, 1.5, 2.25]))
+        if c < 0.8:
+            return V(rng.choice(["a", "b", "j"]))
+        return call(rng.choice(["twice", "abs"]), meth(V("j"), "d"))
+
+    def cmp_(d):
+        k = rng.choice([1, 1, 2, 2, 3])
+        ops = "+".join(rng.choice(["Lt", "LtE", "Gt", "GtE", "Eq", "NotEq"]) for _ in range(k))
+        return N("cmp:" + ops, *[num(d - 1) for _ in range(k + 1)])
+
+    def num(d):
+        if d <= 0 or rng.random() < 0.6:
+            return leaf()
+        return N("bin:" + rng.choice(["Add", "Sub", "Mult"]), num(d - 1), num(d - 1))
+
+    def boolean(d):
+        c = rng.random()
+        if d <= 0 or c < 0.35:
+            return cmp_(d)
+        if c < 0.85:
+            return N("bool:" + rng.choice(["And", "Or"]), *[boolean(d - 1) for _ in range(rng.choice([2, 3, 3, 4]))])
+        if c < 0.93:
+            return N("un:Not", boolean(d - 1))
+        return N("if", boolean(d - 1), boolean(d - 1), boolean(d - 1))
+
+    terms = []
+    for _ in range(n):
+        b = boolean(rng.choice([1, 2, 2, 3]))
+        form = rng.random()
+        if form < 0.5:
+            b = call("Where", call("EventDataset", C("ds")), L(["j"], b))
+        elif form < 0.7:
+            b = N("tuple", b, boolean(1))
+        terms.append(b)
+    ans = ctx.driver(DRIVER, [{"op": "wprint2", "q": T.to_json(t)} for t in terms])
+    reqs, meta = [], []
+    for t, a in zip(terms, ans):
+        if "bad" in a:
+            continue
+        try:
+            text = Vr.qastle_text(t)
+            back = Vr.qastle_roundtrip(t, text)
+        except Exception as e:
+            ctx.count("wire-nary:qastle-refused:" + type(e).__name__)
+            continue
+        ctx.count("tie:wprint2")
+        ctx.count("wire-nary:" + ("rewritten" if a.get("changed") else "as-written"))
+        ctx.case(["wire-nary", T.show(t)], bool(a.get("changed")), None)
+        if a.get("toks") != qastle_tokens(text):
+            ctx.disagreement("qastle.python_ast_to_text_ast(n-ary)", {"term": T.show(t)}, a.get("toks", "none"), qastle_tokens(text))
+        elif T.of_json(a["back"]) != back:
+            ctx.disagreement("qastle round trip (n-ary)", {"term": T.show(t)}, T.show(T.of_json(a["back"])), T.show(back))
+        reqs.append({"op": "wparse", "toks": qastle_tokens(text)})
+        meta.append((t, back))
+    for (t, back), a in zip(meta, ctx.driver(DRIVER, reqs)):
+        if "bad" in a:
+            continue
+        ctx.count("tie:wparse")
+        if "q" not in a or T.of_json(a["q"]) != back:
+            ctx.disagreement("qastle.text_ast_to_python_ast(n-ary)", {"term": T.show(t)}, T.show(T.of_json(a["q"])) if "q" in a else "none", T.show(back))
+
+
 def known_stream(ctx):
     """Replay every listed finding and every corpus case on the real code (one driver call for all of them).
     A listed finding that still fails is announced under its key; a corpus case (a minimised failing input of an
@@ -1055,6 +1143,25 @@ def echo_cases(ctx, quick: bool) -> List[Case]:
     return cases
 
 
+def cross_cases(ctx, quick: bool) -> List[Case]:
+    """(b) doubly crossing shadowing: both outer names re-bound at different inner levels, outer names used after the
+    inner lambdas; every pattern of re-use that is an alpha-variant."""
+    T, gen, Vr, P = _lib()
+    D = _directed()
+    cases: List[Case] = []
+    for b in P.BACKENDS:
+        for k, e in enumerate(D.cross_cases(b, ctx.rng, 9 if quick else None)):
+            if quick and b != P.BACKENDS[(k + ctx.seed) % 3]:
+                continue
+            c = Case(b, e["q"], e["mds"], {"alpha-cross:" + e["label"]: 1})
+            c.mdt = [gen.md_term(m) for m in e["mds"]]
+            c.base = Vr.place(ctx.rng, e["q"], c.mdt, "bottom")
+            for vl, v in e["variants"]:
+                c.variants.append({"kind": "alpha-cross", "term": Vr.place(ctx.rng, v, c.mdt, "bottom"), "rel": {"kind": "alpha", "q": e["q"], "q2": v}, "strict": False, "label": e["label"] + ":" + vl})
+            cases.append(c)
+    return cases
+
+
 def fuse_left_cases(ctx, quick: bool) -> List[Case]:
     """(d) chained Select/Where steps where func_adl's simplifier does not go: fused by hand against left to the translator."""
     T, gen, Vr, P = _lib()
@@ -1107,17 +1214,18 @@ def run(ctx):
     # the directed families of the three clauses (c), (b), (d): the package-level comparisons come first, so that a
     # replay file shows the property's own statement failing (two placements / spellings / chainings, two packages)
     directed: List[Case] = []
-    for name, mk in (("md-dependent", dependent_cases), ("alpha-echo", echo_cases), ("fuse-left", fuse_left_cases)):
+    for name, mk in (("md-dependent", dependent_cases), ("alpha-echo", echo_cases), ("alpha-cross", cross_cases), ("fuse-left", fuse_left_cases)):
         for c in mk(ctx, quick):
             c.stream = name
             directed.append(c)
     for i in range(0, len(directed), 150):  # one pair of driver runs per 150 cases
         report_failures(ctx, process_cases(ctx, directed[i : i + 150], "directed", tie=False))
         ctx.check_time()
-    TIMER.lap("directed streams (md-dependent, alpha-echo, fuse-left)")
+    TIMER.lap("directed streams (md-dependent, alpha-echo, alpha-cross, fuse-left)")
     stack_stream(ctx, 300 if quick else 3000)
     procmd_stream(ctx, 40 if quick else 400)
     scripts_stream(ctx, 60 if quick else 600)
+    wire_nary_stream(ctx, 80 if quick else 800)
     TIMER.lap("stack+procmd+scripts streams")
     # every list-valued metadata key of every metadata kind written as a tuple: Python AST vs qastle text
     cases = [wire_metadata_case(b, label, q, mds) for b in P.BACKENDS for label, q, mds in gen.wire_metadata_cases(b)]
